@@ -76,17 +76,24 @@ def runCase (s : St) : String :=
       | some m => s!"FAIL {m}"
     -- classify a failure: is it exactly what fixes/C04-range-override-in-padding.diff repairs?
     -- (the port with the fixed override span, on the same two trees, satisfies the judge)
+    let fixedV := judgeChanged li o n (treeChangedRanges li.alias true o n).ranges s.len
     let cause := match v.fail with
       | none => "-"
       | some _ =>
-        if !s.fixed && (judgeChanged li o n (treeChangedRanges li.alias true o n).ranges s.len).fail.isNone
-          && !decide (o.ranges = n.ranges)
-        then "override-span-in-padding" else "other"
+        if !s.fixed && fixedV.fail.isNone && !decide (o.ranges = n.ranges)
+        then "override-span-in-padding"
+        else if v.uncovered > 0 && v.uncoveredInToken == 0 && !decide (o.ranges = n.ranges) && rangesOrdered s.reported
+          && !s.reported.any (fun r => r.end_byte > s.len)
+        then "padding-byte-after-range-change"
+        else "other"
+    let fixmsg := match v.fail, fixedV.fail with
+      | some _, some m => s!" fixedmodel={m}"
+      | _, _ => ""
     let mono := if traceAdmissible [] (ch.main ++ ch.post) then "ok"
       else "bad:" ++ ",".intercalate ((ch.main ++ ch.post).map fun (a, b) => s!"{a.bytes}-{b.bytes}")
     let ms := if matchSound li o n ch.matched then "ok" else "bad"
     let rchg := if decide (o.ranges = n.ranges) then 0 else 1
-    s!"{s.id} corr={corr} judge={j} cause={cause} mono={mono} msound={ms} nr={s.reported.length} diffbytes={v.diffBytes} same={v.coveredSame} rchg={rchg} calls={ch.main.length + ch.post.length} matched={ch.matched.length}"
+    s!"{s.id} corr={corr} judge={j} cause={cause} mono={mono} msound={ms} nr={s.reported.length} diffbytes={v.diffBytes} uncov={v.uncovered} uncovtok={v.uncoveredInToken} uncovlist={v.uncoveredBytes} same={v.coveredSame} rchg={rchg} calls={ch.main.length + ch.post.length} matched={ch.matched.length}{fixmsg}"
   | _, _, _ => s!"{s.id} corr=BADINPUT judge=BADINPUT"
 
 def step (s : St) (line : String) : IO St := do
